@@ -536,10 +536,10 @@ pub fn api_harness(spec: &RunSpec) -> RunOutput {
     let mut chooser = match &spec.choices {
         Some(c) => Chooser::replay(c.clone()),
         None => {
-            if plan["sched"].as_str() == Some("pct") {
-                Chooser::pct(sched_rng, plan["pct_depth"].as_u64().unwrap_or(3) as usize, 2000)
-            } else {
-                Chooser::random(sched_rng)
+            match plan["sched"].as_str() {
+                Some("pct") => Chooser::pct(sched_rng, plan["pct_depth"].as_u64().unwrap_or(3) as usize, 2000),
+                Some("sticky") => Chooser::sticky(sched_rng),
+                _ => Chooser::random(sched_rng),
             }
         }
     };
